@@ -4,7 +4,10 @@ from ..check import Slice, Query
 from ..summary import Item, items, is_ok, bv
 
 ID = 'C05'
-ENGINE_B = {'template': 't_impl', 'kinds': ['addrcall_'], 'max_quick': 12, 'max_thorough': 64, 'abi': True}
+# fixed witnesses: addresses around the 32-bit boundary and with zero nibbles in the middle, every receiver kind
+ENGINE_B = {'template': 't_impl', 'kinds': ['addrcall_'], 'max_quick': 14, 'max_thorough': 64, 'abi': True,
+            'fixed': [[8, 1, 0x100000000, 0, 1, 2, 0, 2, 0, 1, 0, 1], [8, 1, 0x7FF600123456, 0, 2, 1, 0, 0, 0, 0, 0, 1], [8, 1, 0xFFFFFFFF, 0, 0, 0, 0, 0, 0, 1, 0, 1],
+                      [8, 1, 0x101000000, 0, 1, 3, 0, 2, 3, 2, 3, 0], [8, 1, 0x7FFFFFFFFFFFFFF0, 0, 1, 0, 0, 0, 0, 0, 0, 1]]}
 CC = ['C', 'cdecl', 'stdcall', 'fastcall', 'thiscall', 'vectorcall', 'system', 'bogus']
 ARGT = {0: ['raw', 'u32'], 1: ['raw', 'u64'], 2: ['const*', ['raw', 'm::T']], 3: ['mut*', ['raw', 'u8']], 5: ['raw', 'bool']}
 ARGS_TXT = {0: 'u32', 1: 'u64', 2: '*const T', 3: '*mut u8', 4: 'Nope', 5: 'bool', 6: '*const Nope'}
